@@ -87,7 +87,8 @@ class BoundClosure:
 
 
 def is_mp_function(fn):
-    return isinstance(fn, types.FunctionType) and str(fn.__globals__.get('__name__', '')).startswith(('mpmath', 'vharness'))
+    return isinstance(fn, types.FunctionType) and (str(fn.__globals__.get('__name__', '')).startswith('mpmath')
+                                                   or getattr(fn, '_pysym_interpret', False))
 
 
 def is_mp_object(v):
@@ -110,6 +111,7 @@ class Engine:
             self.models.update(models)
         self.max_unroll = max_unroll
         self.abstract = abstract
+        G.ABSTRACT = abstract
         self.query_timeout_ms = query_timeout_ms
         self.max_depth = max_depth
         self.stats = dict(feas_queries=0, feas_time=0.0, forks=0, merges=0, calls=0)
@@ -118,6 +120,9 @@ class Engine:
         self.cov = {}               # (file, lineno) -> set of arms reached ('T','F')
         self.returns = set()        # (file, lineno) of return statements reached
         self.feas_cache = {}
+        self.inline_policy = None    # abstract mode: callable(fn, depth) -> bool (inline) ; else stubbed as may-raise Unknown
+        self.stubbed = set()
+        self.lenient = []           # abstract mode: constructs replaced by Unknown
 
     # ------------------------------------------------------------------ solver helpers
     def feasible(self, pc, extra=None):
@@ -259,6 +264,9 @@ class Engine:
             return self.call(st, fn.__func__, [fn.__self__] + list(args), kwargs, fr)
         if isinstance(fn, types.FunctionType):
             if is_mp_function(fn):
+                if self.abstract and self.inline_policy is not None and not self.inline_policy(fn, depth):
+                    self.stubbed.add(getattr(fn, '__qualname__', '?'))
+                    return self.unknown_call(st, Unknown('stub'), args, kwargs)
                 return self.call_py(st, fn, args, kwargs, depth)
         elif isinstance(fn, type):
             r = self.call_class(st, fn, args, kwargs, fr)
@@ -273,6 +281,8 @@ class Engine:
         return self.native_call(st, fn, args, kwargs)
 
     def native_call(self, st, fn, args, kwargs):
+        if '__unknown_kwargs__' in kwargs:
+            return self.unknown_call(st, Unknown('native'), args, {})
         if has_sym(list(args)) or has_sym(list(kwargs.values())):
             raise Unsupported('native call %s with symbolic arguments' % getattr(fn, '__name__', fn))
         if has_unknown(list(args)) or has_unknown(list(kwargs.values())):
@@ -357,8 +367,42 @@ class Engine:
                     raise TypeError('%s() missing keyword-only argument %r' % (name, x.arg))
         return env
 
+    def bind_unknown(self, node_args, args, kwargs):
+        """abstract mode: a call made with *Unknown / **Unknown binds every parameter that is not given explicitly to Unknown"""
+        a = node_args
+        pos = [x.arg for x in a.posonlyargs] + [x.arg for x in a.args]
+        env = {}
+        star = False
+        i = 0
+        for v in args:
+            if isinstance(v, Unknown) and v.why == 'star':
+                star = True
+                break
+            if i < len(pos):
+                env[pos[i]] = v
+            i += 1
+        for nm in pos + [x.arg for x in a.kwonlyargs]:
+            if nm not in env:
+                env[nm] = kwargs[nm] if nm in kwargs else Unknown('param')
+        if a.vararg is not None:
+            env[a.vararg.arg] = Unknown('varargs')
+        if a.kwarg is not None:
+            env[a.kwarg.arg] = Unknown('kwargs')
+        return env
+
     def call_py(self, st, fn, args, kwargs, depth):
         node = self.get_ast(fn)
+        if self.abstract and (any(isinstance(v, Unknown) and v.why == 'star' for v in args) or '__unknown_kwargs__' in kwargs):
+            kwargs = {k: v for k, v in kwargs.items() if k != '__unknown_kwargs__'}
+            env = self.bind_unknown(node.args, args, kwargs)
+            cells = {}
+            if fn.__closure__:
+                for nm, c in zip(fn.__code__.co_freevars, fn.__closure__):
+                    try:
+                        cells[nm] = Cell(c.cell_contents)
+                    except ValueError:
+                        cells[nm] = Cell()
+            return self.run_body(st, node, env, Frame(fn, fn.__globals__, cells, depth))
         try:
             env = self.bind_args(node.args, fn.__defaults__ or (), fn.__kwdefaults__ or {}, args, kwargs, fn.__name__)
         except TypeError as e:
@@ -375,6 +419,10 @@ class Engine:
 
     def call_closure(self, st, clo, args, kwargs, depth):
         node = clo.node
+        if self.abstract and (any(isinstance(v, Unknown) and v.why == 'star' for v in args) or '__unknown_kwargs__' in kwargs):
+            kwargs = {k: v for k, v in kwargs.items() if k != '__unknown_kwargs__'}
+            env = self.bind_unknown(node.args, args, kwargs)
+            return self.run_body(st, node, env, Frame(clo.frame.func, clo.frame.glob, clo.cells, depth))
         try:
             env = self.bind_args(node.args, clo.defaults, clo.kwdefaults, args, kwargs, clo.__name__)
         except TypeError as e:
@@ -424,6 +472,9 @@ class Engine:
             for s in states:
                 h = s.heap.get(k)
                 if h is None:
+                    if G.ABSTRACT:
+                        vals.append(Unknown('join'))
+                        continue
                     raise Unmergeable()     # written in one branch only and no prior overlay value
                 obj = h[0]
                 vals.append(h[1])
@@ -431,6 +482,9 @@ class Engine:
             for x, c in zip(reversed(vals[:-1]), reversed(conds[:-1])):
                 if x is _MISSING or v is _MISSING:
                     if x is not v:
+                        if G.ABSTRACT:
+                            v = Unknown('join')
+                            continue
                         raise Unmergeable()
                     continue
                 v = merge(c, x, v)
@@ -511,7 +565,9 @@ class Engine:
         order = []
         for o in group:
             e = o[2]
-            if isinstance(e, Unknown):
+            if G.ABSTRACT:
+                key = 'any'
+            elif isinstance(e, Unknown):
                 key = 'unknown'
             elif isinstance(e, BaseException) and not has_sym(list(e.args)):
                 key = (type(e), repr(e.args))
@@ -527,7 +583,7 @@ class Engine:
             if len(g) == 1:
                 res.extend(g)
                 continue
-            rep = g[0][2]
+            rep = g[0][2] if not G.ABSTRACT else Unknown('exc')
             g2 = [(s, RAISE, None) for s, _, _ in g]
             m = self._merge_group(st0, g2, RAISE)
             if len(m) == 1:
@@ -586,6 +642,11 @@ class Engine:
                     else:
                         done.append(o)
             live = nxt
+            if self.abstract:
+                if len(live) > 1:
+                    live = self.merge_states(st, live)
+                if len(done) > 3:
+                    done = self._merge_nonnormal(st, done)
             if not live:
                 break
         return [(s, NORMAL, None) for s in live] + done
@@ -593,8 +654,21 @@ class Engine:
     def exec_stmt(self, st, node, fr):
         m = getattr(self, 'st_' + type(node).__name__, None)
         if m is None:
+            if self.abstract and not _writes_precision(node):
+                self.lenient.append('%s:%s skipped statement %s' % (getattr(fr.func, '__qualname__', '?'), node.lineno, type(node).__name__))
+                return [(st, NORMAL, None)]
             raise Unsupported('statement ' + type(node).__name__)
-        return m(st, node, fr)
+        if not self.abstract:
+            return m(st, node, fr)
+        try:
+            return m(st, node, fr)
+        except WidthError:
+            raise
+        except Unsupported as ex:
+            if _writes_precision(node):
+                raise
+            self.lenient.append('%s:%s skipped %s (%s)' % (getattr(fr.func, '__qualname__', '?'), node.lineno, type(node).__name__, str(ex)[:60]))
+            return [(st, NORMAL, None)]
 
     def st_Pass(self, st, node, fr):
         return [(st, NORMAL, None)]
@@ -612,7 +686,10 @@ class Engine:
     def st_Import(self, st, node, fr):
         st = st.copy()
         for a in node.names:
-            mod = __import__(a.name)
+            try:
+                mod = __import__(a.name)
+            except ImportError as ex:
+                return [(st, RAISE, ex)]
             if a.asname:
                 for part in a.name.split('.')[1:]:
                     mod = getattr(mod, part)
@@ -711,6 +788,8 @@ class Engine:
         if isinstance(target, (ast.Tuple, ast.List)):
             if isinstance(val, Unknown):
                 val = [Unknown('unpack', val.tag) for _ in target.elts]
+            if isinstance(val, list):
+                val = self.overlay_seq(st, val)
             if not isinstance(val, (tuple, list)):
                 if has_sym(val):
                     raise Unsupported('unpack symbolic')
@@ -1138,9 +1217,18 @@ class Engine:
     # ------------------------------------------------------------------ expressions
     def eval_x(self, st, node, fr):
         m = getattr(self, 'ex_' + type(node).__name__, None)
-        if m is None:
-            raise Unsupported('expression ' + type(node).__name__)
-        return m(st, node, fr)
+        if not self.abstract:
+            if m is None:
+                raise Unsupported('expression ' + type(node).__name__)
+            return m(st, node, fr)
+        # abstract mode: anything outside the supported subset evaluates to an Unknown that may raise
+        try:
+            if m is None:
+                raise Unsupported('expression ' + type(node).__name__)
+            return m(st, node, fr)
+        except (Unsupported, TypeError, AttributeError, ValueError, KeyError, IndexError, OverflowError) as ex:
+            self.lenient.append('%s:%s %s: %s' % (getattr(fr.func, '__qualname__', '?'), getattr(node, 'lineno', '?'), type(ex).__name__, str(ex)[:80]))
+            return self.unknown_call(st, Unknown('lenient'), [], {})
 
     def eval_list(self, st, nodes, fr, k):
         def rec(s, i, acc):
@@ -1219,6 +1307,16 @@ class Engine:
         if isinstance(a, Unknown) or isinstance(b, Unknown):
             if not self.abstract:
                 raise Unsupported('operator on unknown')
+            # integer view: an Unknown combined with an integer by an integer operator is one consistent fresh symbolic int
+            other = b if isinstance(a, Unknown) else a
+            if opt in (ast.Add, ast.Sub, ast.Mult, ast.FloorDiv, ast.LShift, ast.RShift) and isinstance(other, (SInt, int)) \
+                    and not isinstance(other, bool) and (isinstance(other, SInt) or opt in (ast.Add, ast.Sub)):
+                try:
+                    ai = a.as_int() if isinstance(a, Unknown) else a
+                    bi = b.as_int() if isinstance(b, Unknown) else b
+                    return self.do_binop(s, opt, ai, bi, fr, inplace)
+                except Unsupported:
+                    pass
             ta = a.tag if isinstance(a, Unknown) else None
             rb = fresh_bool('opraises')
             return [(s.fork(z3.Not(rb.t)), NORMAL, Unknown('op', ta)), (s.fork(rb.t), RAISE, Unknown('exc'))]
@@ -1390,6 +1488,19 @@ class Engine:
         if isinstance(a, Unknown) or isinstance(b, Unknown):
             if not self.abstract:
                 raise Unsupported('comparison with unknown')
+            other = b if isinstance(a, Unknown) else a
+            if isinstance(op, (ast.Lt, ast.LtE, ast.Gt, ast.GtE, ast.Eq, ast.NotEq)) and isinstance(other, (SInt, int)) and not isinstance(other, bool):
+                ai = a.as_int() if isinstance(a, Unknown) else a
+                bi = b.as_int() if isinstance(b, Unknown) else b
+                if isinstance(op, (ast.Eq, ast.NotEq)):
+                    # an Unknown need not be an int at all: equality with an int may simply be False
+                    r = eq_val(ai, bi)
+                    r = r if isinstance(op, ast.Eq) else not_(r)
+                    if isinstance(r, SBool):
+                        isint = fresh_bool('isint')
+                        r = mk_bool(z3.And(isint.t, r.t)) if isinstance(op, ast.Eq) else mk_bool(z3.Or(z3.Not(isint.t), r.t))
+                    return [(s, NORMAL, r)]
+                return [(s, NORMAL, cmp_ints(self.CMPSYM[type(op)], ai, bi))]
             return [(s, NORMAL, Unknown('cmp'))]
         if isinstance(op, (ast.In, ast.NotIn)):
             return self.contains(s, a, b, fr, isinstance(op, ast.NotIn))
@@ -1703,9 +1814,6 @@ class Engine:
                         kwargs.update(v)
                 else:
                     kwargs[name] = v
-            if '__unknown_kwargs__' in kwargs and not isinstance(fn, Unknown):
-                kwargs.pop('__unknown_kwargs__')
-                G.stats['unknown_kwargs_dropped'] = G.stats.get('unknown_kwargs_dropped', 0) + 1
             return self.call(s, fn, args, kwargs, fr)
         return self.eval_list(st, nodes, fr, k)
 
@@ -1771,6 +1879,25 @@ class Engine:
 
     def ex_Starred(self, st, node, fr):
         raise Unsupported('starred expression')
+
+
+PREC_ATTRS = ('prec', 'dps', '_prec', '_dps', '_prec_rounding')
+
+
+def _writes_precision(node):
+    for n in ast.walk(node):
+        if isinstance(n, (ast.Assign, ast.AugAssign, ast.AnnAssign)):
+            targets = n.targets if isinstance(n, ast.Assign) else [n.target]
+            for t in targets:
+                for x in ast.walk(t):
+                    if isinstance(x, ast.Attribute) and x.attr in PREC_ATTRS:
+                        return True
+        if isinstance(n, ast.With):
+            for it in n.items:
+                c = it.context_expr
+                if isinstance(c, ast.Call) and isinstance(c.func, ast.Attribute) and c.func.attr in ('workprec', 'workdps', 'extraprec', 'extradps'):
+                    return True
+    return False
 
 
 def _shared_names(fnode):
